@@ -32,6 +32,12 @@ func H_C11_unmarshal(n int) {
 	case n != 7:
 		vAssert("invalid-length", err != nil && errorsIs(err, ErrInvalidLength))
 	}
+	if n == 7 && data[0] == 1 {
+		wy := int(int32(uint32(data[1])<<24 | uint32(data[2])<<16 | uint32(data[3])<<8 | uint32(data[4])))
+		if refValid(wy, int(data[5]), int(data[6])) {
+			vAssert("real-dates-are-accepted", err == nil)
+		}
+	}
 	if err != nil {
 		vReach("rejected", true)
 		vAssert("receiver-untouched-on-error", d == pre)
